@@ -34,3 +34,16 @@ Print Assumptions C03_published_vectors_v0.
 Theorem C03_published_vectors_v1 : forallb check_v1 g_vec_v1 = true.
 Proof. exact vectors_v1_ok. Qed.
 Print Assumptions C03_published_vectors_v1.
+
+(* the secondary entry point: the transaction NewTxFromBuffer returns for the bytes Serialize wrote has the
+   pre-images of the transaction that was serialized (the pre-images never read the witness flag, the only
+   field in which the two may differ), for every algorithm, index, hash type and spent data *)
+From GE Require Import Proofs.TxCodec Proofs.SighashReparse.
+Theorem C03_reparsed_has_same_preimages : forall t rest t' rest',
+  wf_tx t = true -> parse_tx (ser_full t ++ rest) = Some (t', rest') ->
+  rest' = rest /\
+  (forall idx script ht, preimage_legacy t' idx script ht = preimage_legacy t idx script ht) /\
+  (forall H2 idx script value ht, preimage_v0 H2 t' idx script value ht = preimage_v0 H2 t idx script value ht) /\
+  (forall H1 idx a ht, preimage_v1 H1 t' idx a ht = preimage_v1 H1 t idx a ht).
+Proof. exact reparsed_has_same_preimages. Qed.
+Print Assumptions C03_reparsed_has_same_preimages.
